@@ -64,6 +64,10 @@ fn aln_hit(what: &str, a: &Alignment, m: usize, tl: usize) -> Result<Hit, String
     Ok((a.ystart, a.yend, a.score as usize, Some(a.operations.clone())))
 }
 
+/// a recycled alignment record: every field holds something from an earlier, unrelated (semiglobal) alignment
+fn dirty_aln() -> Alignment {
+    Alignment { score: -7, ystart: 11, xstart: 3, yend: 12, xend: 99, ylen: 1234, xlen: 77, operations: vec![AlignmentOperation::Del, AlignmentOperation::Xclip(3)], mode: AlignmentMode::Semiglobal }
+}
 macro_rules! api_check { ($name:ident, $M:ty, $D:ty, $hits_only:expr) => {
     /// all APIs of one implementation; returns the (start, end, dist, path) list of the hits (for comparison between implementations)
     fn $name(tag: &str, my: &mut $M, p: &[u8], t: &[u8], k: usize, order: u64) -> Result<Vec<Hit>, String> {
@@ -101,7 +105,7 @@ macro_rules! api_check { ($name:ident, $M:ty, $D:ty, $hits_only:expr) => {
                 n += 1;
             }
             if n != it.len() { return Err(format!("{} next_path_reverse stops after {} of {} hits", tag, n, it.len())); }
-            let mut aln = Alignment::default();
+            let mut aln = dirty_aln();
             let mut fm = my.find_all(t, k as $D);
             let mut n = 0;
             while fm.next_alignment(&mut aln) {
@@ -132,7 +136,7 @@ macro_rules! api_check { ($name:ident, $M:ty, $D:ty, $hits_only:expr) => {
         // lazy API: queries at any searched end position, in an order chosen by the input, repeatedly, interleaved with the iteration
         {
             let mut ops = vec![];
-            let mut aln = Alignment::default();
+            let mut aln = dirty_aln();
             let mut lm = my.find_all_lazy(t, k as $D);
             let mut n = 0;
             let mut visited = 0usize; // number of text positions searched
